@@ -19,7 +19,7 @@ computed numbers).  Decided, on the normal form of ``Interstitial.losstensors`` 
 import ast
 
 from ..model import AnalysisError, dotted, unparse, walk_local
-from ._common import caches_for, cache_discipline, conditions_at, update_of
+from ._common import caches_for, cache_discipline, conditions_at, update_of, alias_names
 
 
 def run(model, rep, tier):
@@ -48,11 +48,16 @@ def run(model, rep, tier):
     lam, phi = [unparse(t) for t in eig[0].targets[0].elts]
     mat = unparse(eig[0].value.args[0])
     solver = dotted(eig[0].value.func)
-    acc = [s for s in ast.walk(fn) if isinstance(s, ast.AugAssign) and isinstance(s.target, ast.Subscript) and unparse(s.target.value) == mat]
-    touched = [s for s in fn.body if s.lineno > max([a.lineno for a in acc] or [0]) and s.lineno < eig[0].lineno
-               and any(isinstance(n, ast.Name) and n.id == mat and isinstance(n.ctx, ast.Store) for n in ast.walk(s))]
-    touched += [s for s in ast.walk(fn) if isinstance(s, (ast.Assign, ast.AugAssign)) and s.lineno < eig[0].lineno and s not in acc
-                and any(isinstance(t, ast.Subscript) and unparse(t.value) == mat for t in (s.targets if isinstance(s, ast.Assign) else [s.target]))]
+    mats = alias_names(fn, mat)     # the matrix may have been assembled under another local name (inlined helper)
+    acc = [s for s in ast.walk(fn) if isinstance(s, ast.AugAssign) and isinstance(s.target, ast.Subscript) and unparse(s.target.value) in mats]
+    pos = {id(s): k for k, s in enumerate(fn.body)}
+    def top(n):
+        while getattr(n, '_parent', None) is not None and id(n) not in pos:
+            n = n._parent
+        return pos.get(id(n), -1)
+    last_acc = max([top(a) for a in acc] or [-1])
+    touched = [s for s in ast.walk(fn) if isinstance(s, (ast.Assign, ast.AugAssign)) and s not in acc and last_acc < top(s) <= top(eig[0]) and s is not eig[0]
+               and any(isinstance(t, ast.Subscript) and unparse(t.value) in mats for t in (s.targets if isinstance(s, ast.Assign) else [s.target]))]
     ok = solver.endswith('.eigh') and len(acc) == 2 and not touched
     rep.ob('symmetric-eigensolver', oc, eig[0], '%s <- %s(%s); %s filled by %d accumulation(s) in the jump loop, untouched afterwards'
            % ((lam, phi), solver, mat, mat, len(acc)), ok,
